@@ -2,6 +2,7 @@ import GormModel.Drv.Util
 import GormModel.Model.Upsert
 import GormModel.Model.UpsertClause
 import GormModel.Model.UpsertKeys
+import GormModel.Model.UpsertScan
 open Lean
 namespace Gorm.Drv
 open Gorm.Upsert
@@ -277,9 +278,13 @@ def runWide (o : Json) : Option Json := do
     let r := UpsertK.createK kr (w.tbl table) (UpsertK.assignKey newKey v)
     some (wideOut (w.set table r.1) none (if r.2 then "unique" else "ok") [])
   | "foi" =>
+    -- round 4: `main` / `arch` arrive in STORAGE (insertion) order; the row the lookup loads is decided by
+    -- UpsertScan.lookupK under the regenerated LookupCfg and brought to the front for firstMatchK (C16_lookup_front)
+    let w := w.set table (UpsertScan.front (UpsertScan.lookupK (UpsertScan.genLookupCfg "DB.FirstOrInit") st qconds (w.tbl table)) (w.tbl table))
     let out := UpsertK.firstOrInitK nk 2 st qconds bconds attrs assigns w
     some (wideOut out.world (some out.val) (kErrS out.err) [])
   | "foc" =>
+    let w := w.set table (UpsertScan.front (UpsertScan.lookupK (UpsertScan.genLookupCfg "DB.FirstOrCreate") st qconds (w.tbl table)) (w.tbl table))
     let out := UpsertK.firstOrCreateK cfg nk 2 st qconds bconds attrs assigns newKey w
     let upd := match UpsertK.firstMatchK st qconds w with
       | some r =>
@@ -288,6 +293,29 @@ def runWide (o : Json) : Option Json := do
       | none => []
     some (wideOut out.world (some out.val) (kErrS out.err) upd)
   | _ => none
+
+/-! round 4: `c16.scan` — Model.UpsertScan.assign under the regenerated scan mode -/
+
+def parseElem (j : Json) (idx : Nat) : Option UpsertScan.Elem := do
+  let a ← jArr? j
+  let nz := (← jNat? (arg a 0)) != 0
+  let ret := (← jNat? (arg a 1)) != 0
+  some { nz := nz, ret := if ret then some idx else none }
+
+def parseElems (j : Json) : Option (List UpsertScan.Elem) := do
+  let a ← jArr? j
+  (List.range a.size).mapM (fun i => parseElem (arg a i) i)
+
+/-- answer: {skip, src}: per batch, per element, the index (within the batch) of the element whose row it receives, -1 = none -/
+def runScan (o : Json) : Option Json := do
+  let f : UpsertScan.OCFlags := {
+    doNothing := (← jNat? (o.getObjValD "doNothing")) != 0, updateAll := (← jNat? (o.getObjValD "updateAll")) != 0,
+    doUpdates := (← jNat? (o.getObjValD "doUpdates")) != 0, where_ := (← jNat? (o.getObjValD "where")) != 0 }
+  let bs ← (← jArr? (o.getObjValD "batches")).toList.mapM parseElems
+  let src := bs.map (fun es => Json.arr ((UpsertScan.scanUpsert UpsertScan.genScanCfg f es).map (fun
+    | some i => Json.num (Int.ofNat i)
+    | none => Json.num (-1 : Int))).toArray)
+  some (Json.mkObj [("skip", Json.bool (UpsertScan.skipMode UpsertScan.genScanCfg f)), ("src", Json.arr src.toArray)])
 
 end HC16
 
@@ -343,6 +371,10 @@ def handleC16 (op : String) (args : Array Json) : Option Json := do
       | _, _ => Json.null
     some (Json.mkObj [("oc", ocJ oc'), ("render", strListJ oc'.render), ("row", row)])
   | "c16.wide" => runWide (arg args 1)
+  | "c16.scan" => runScan (arg args 1)
+  | "c16.genscan" =>
+    some (Json.arr #[strListJ UpsertScan.genScanCfg.skipWhen,
+      Json.bool (UpsertScan.genLookupCfg "DB.FirstOrInit").ordered, Json.bool (UpsertScan.genLookupCfg "DB.FirstOrCreate").ordered])
   | "c16.genkeys" =>
     -- the regenerated key test of Save and the nested-handle facts
     some (Json.arr #[Json.str (match UpsertK.genKeyTest with | .anyZero => "any" | .allZero => "all" | .unknown => "unknown"),
